@@ -93,6 +93,7 @@ fn gen_end(rng: &mut Rng) -> EndMode {
     match rng.below(6) {
         0 => EndMode::Drop,
         1 => EndMode::Reset(*rng.pick(&[0u64, 0x100, 0x10c, 0x10f, (1 << 62) - 1])),
+        2 => EndMode::FinishRetried,
         _ => EndMode::Finish,
     }
 }
@@ -308,10 +309,11 @@ pub fn run_program<B: BodyBuf>(p: &Program, rep: &mut Report) {
             viol(rep, &format!("wire[{}]", f.rule), format!("{} stream {}: {}", sim::side_name(side), f.stream, f.detail), &case);
         }
     }
+    rep.add("finish_futures_dropped_while_pending_then_called_again", evs.iter().filter(|e| e.op == "finish (future dropped while pending)").count() as u64);
     // DATA conservation at the wire
     let accept_order: Vec<u64> = evs.iter().filter_map(|e| if let Out::Accepted(s) = e.out { Some(s) } else { None }).collect();
     for (i, q) in p.reqs.iter().enumerate() {
-        rep.count(&format!("end[{}]", match q.end { EndMode::Finish => "Finish", EndMode::Drop => "Drop", EndMode::Reset(_) => "Reset" }));
+        rep.count(&format!("end[{}]", match q.end { EndMode::Finish => "Finish", EndMode::Drop => "Drop", EndMode::Reset(_) => "Reset", EndMode::FinishRetried => "Finish (first call dropped while pending, called again)" }));
         let cact = format!("c:req#{}", i);
         let sid = evs.iter().find_map(|e| if e.actor == cact { if let Out::Opened(s) = e.out { Some(s) } else { None } } else { None });
         let Some(sid) = sid else { continue };
@@ -322,7 +324,7 @@ pub fn run_program<B: BodyBuf>(p: &Program, rep: &mut Report) {
         }
         if let Some(pos) = accept_order.iter().position(|s| *s == sid) {
             let r = &p.resps[pos.min(p.resps.len() - 1)];
-            rep.count(&format!("end[{}]", match r.end { EndMode::Finish => "Finish", EndMode::Drop => "Drop", EndMode::Reset(_) => "Reset" }));
+            rep.count(&format!("end[{}]", match r.end { EndMode::Finish => "Finish", EndMode::Drop => "Drop", EndMode::Reset(_) => "Reset", EndMode::FinishRetried => "Finish (first call dropped while pending, called again)" }));
             let sact = format!("s:req@{}", sid);
             let attempted: Vec<Vec<u8>> = r.resp.body.iter().take(r.stop_after_pieces.unwrap_or(usize::MAX)).cloned().collect();
             let ok = evs.iter().filter(|e| (e.actor == sact || e.actor == format!("{}:send", sact)) && e.op == "send_data" && e.out == Out::Ok).count();
